@@ -5,6 +5,13 @@ VERIF = os.path.dirname(os.path.abspath(__file__))
 sys.path.insert(0, VERIF)
 from checks import CHECKS, NOT_CLAIMED
 
+pending = set()
+try:
+    pending = set(open(os.path.join(VERIF, "pending.txt")).read().split())
+except Exception:
+    pass
+for _p in pending:
+    CHECKS.pop(_p, None)
 props = [json.loads(l) for l in open(os.path.join(VERIF, "properties.jsonl"))]
 baseline = json.load(open("/root/.vp/BASELINE.json"))["cmd"] if os.path.exists("/root/.vp/BASELINE.json") else ""
 old = {}
